@@ -672,6 +672,14 @@ def boundary_cfgs(kind, r, tier):
             for p_ in (0, 4):
                 out.append({"k": "sdes", "padding": p_, "_size_only": True, "_big": True, "chunks": [
                     {"k": "chunk", "ssrc": 1, "items": list(half)}, {"k": "chunk", "ssrc": 2, "items": half + [{"type": 1, "value": b"e" * 250} for _ in range(extra)]}]})
+        # exactly 65535, 65536 and 65537 words, with and without padding, really written and parsed back
+        # (1019 items of 255 octets and one item that decides the total)
+        base_items = [{"type": 1, "value": b"z" * 255} for _ in range(1019)]
+        for total, p_ in ((262140, 0), (262144, 0), (262148, 0), (262144, 4), (262148, 4), (262140, 8)):
+            e = total - p_ - 261891 - 3
+            if 0 <= e <= 255:
+                out.append({"k": "sdes", "padding": p_, "_big": True, "_light": True, "chunks": [
+                    {"k": "chunk", "ssrc": 1, "items": base_items + [{"type": 2, "value": b"y" * e}]}]})
         # total size around the limit: 1028 items of 255 bytes = 264196
         big_items = [{"type": 1, "value": b"z" * 255} for _ in range(1019)]
         for extra in (0, 145, 146, 147, 148, 149, 150, 151, 152, 153, 200):
@@ -769,6 +777,28 @@ def boundary_cfgs(kind, r, tier):
                 out.append({"k": "compound", "members": ms})
         out.append({"k": "compound", "members": []})
         out.append({"k": "compound", "members": [{"k": "compound", "members": []}]})
+        # valid nestings of several packets (the random compounds are rarely valid at depth)
+        def vm():
+            c = gen.legalize(r, wf_cfg_for(r.choice(["rr", "sr", "bye", "app", "sdes", "tfb", "pfb", "unknown"]), r))
+            return c
+        for shape in ("[[ab]]", "[a[bc]]", "[[ab]c]", "[[ab][cd]]", "[a[b[cd]]]", "[[a][b]]", "[[[ab]]]", "[a[bc]d]", "[[abc]]"):
+            def build(it):
+                ms = []
+                for ch in it:
+                    if ch == "[": ms.append({"k": "compound", "members": build(it)})
+                    elif ch == "]": return ms
+                    else: ms.append(vm())
+                return ms
+            top = build(iter(shape[1:]))
+            for _ in range(2 if not full else 6):
+                c = {"k": "compound", "_keep": True, "members": [dict(x) for x in top]}
+                if r.random() < 0.5:
+                    # padding only on the very last packet
+                    last = c["members"][-1]
+                    while last["k"] == "compound" and last["members"]: last = last["members"][-1]
+                    if last["k"] != "compound": last["padding"] = r.choice([4, 8])
+                out.append(c)
+                top = build(iter(shape[1:]))
         U = lambda pt=242: {"k": "custom", "unit": True, "pt": pt, "min": 8, "body": bytes(4), "padding": 0}
         for ms in ([U(), U()], [U(), {"k": "rr", "ssrc": 1, "padding": 0, "rbs": []}, U(), U()], [U(208), U(242), U(208)], [U()],
                    [U(), U(), {"k": "bye", "padding": 4, "sources": [1], "reason": None}]):
